@@ -116,13 +116,19 @@ def gen_flowir_package(rr, idx):
 
 def gen_dsl_package(rr, idx):
     nsteps = rr.randint(2, 4)
-    steps = ['s%d' % i for i in range(nsteps)]
+    steps = ['s%s' % 'abcd'[i] for i in range(nsteps)]  # component names must not end with a digit
     uvars = ['foo', 'bar']
     wf_exec = []
     for i, st in enumerate(steps):
         args = {'message': 'msg %d' % i, 'other': 'UV[foo=%(foo)s] UV[bar=%(bar)s]'}
         if i > 0 and rr.random() < 0.7:
             args['message'] = '<%s>:ref' % steps[rr.randrange(i)]
+        if rr.random() < 0.6:
+            # explicit environments: equal mappings passed by several steps (their key order is noise) must end up
+            # as one shared environment with one name
+            args['environment'] = dict(rr.choice([
+                [('DEFAULTS', 'PATH'), ('A_VAR', 'x'), ('B_VAR', 'y')],
+                [('DEFAULTS', 'PATH:LD_LIBRARY_PATH'), ('C_VAR', 'z'), ('A_VAR', 'x')]]))
         wf_exec.append({'target': '<%s>' % st, 'args': args})
     doc = {
         'entrypoint': {'entry-instance': 'main', 'execute': [{'target': '<entry-instance>',
@@ -211,7 +217,8 @@ def fix_stage_keys(obj):
 
 def materialise(pkg, root, key_seed):
     import yaml
-    path = os.path.join(root, '%s.package' % pkg['name'])
+    # unique per case: the repository derives the name of a shared /tmp shadow directory from the package name
+    path = os.path.join(root, '%s-%s.package' % (pkg['name'], os.path.basename(root).split('-')[-1]))
     shutil.rmtree(path, ignore_errors=True)
     os.makedirs(os.path.join(path, 'conf'))
     doc = fix_stage_keys(copy.deepcopy(pkg['doc']))
@@ -364,8 +371,19 @@ def run_case(case, schedule, opts):
                         if bad:
                             break
                     if bad:
+                        provided = set()
+                        for vf in p['variable_files']:
+                            for scope in (vf.get('global') or {},):
+                                if bad[1] in scope:
+                                    provided.add(str(scope[bad[1]]))
+                            st = vf.get('stages') or {}
+                            for sv in (st.get(0) or st.get('0') or {},):
+                                if bad[1] in sv:
+                                    provided.add(str(sv[bad[1]]))
+                        what = ('last-variable-file-does-not-win' if bad[2] in provided
+                                else 'variable-files-not-applied[%s]' % p['kind'])
                         result['violations'].append({
-                            'property': 'C15', 'sig': 'layering:%s:last-variable-file-does-not-win' % entry,
+                            'property': 'C15', 'sig': 'layering:%s:%s' % (entry, what),
                             'detail': {'package': p['name'], 'entry': entry, 'component': bad[0], 'variable': bad[1],
                                        'expected': want[bad[1]], 'got': bad[2], 'env': case['envs'][ei],
                                        'files': p['variable_files']}})
